@@ -103,7 +103,7 @@ def ns_available():
         return False
 
 
-def run_ns(stage, uid, user=None, euid=None, by_name=False, no_out=False):
+def run_ns(stage, uid, user=None, euid=None, by_name=False, no_out=False, xdg_runtime=None):
     """run the real binary in a private mount namespace with the staged trees at the real paths; returns the set of ORIGIN markers"""
     out = os.path.join(stage, 'out')
     if user is None:
@@ -118,7 +118,9 @@ def run_ns(stage, uid, user=None, euid=None, by_name=False, no_out=False):
              + (f'mkdir -p /etc/qv-users && mount --bind {stage}/usersreal /etc/qv-users && ' if os.path.isdir(os.path.join(stage, 'usersreal')) else '') +
              # (what decides the mode is the command line; variables systemd sets for its generators — SYSTEMD_SCOPE — must not turn a user
              # generator into a system one)
-             f'env -u QUADLET_UNIT_DIRS HOME={stage}/home XDG_CONFIG_HOME={stage}/home/.config XDG_RUNTIME_DIR={stage}/xdgrun '
+             f'env -u QUADLET_UNIT_DIRS ' + ('-u XDG_RUNTIME_DIR ' if xdg_runtime == 'unset' else '') + f'HOME={stage}/home XDG_CONFIG_HOME={stage}/home/.config '
+             # (a user generator started by hand, from cron or in a container has no usable XDG_RUNTIME_DIR: unset, empty, or not absolute)
+             + {None: f'XDG_RUNTIME_DIR={stage}/xdgrun ', 'unset': '', 'empty': 'XDG_RUNTIME_DIR= ', 'relative': 'XDG_RUNTIME_DIR=run/containers '}[xdg_runtime]
              + ((f'SYSTEMD_SCOPE={"system" if sum(map(ord, stage)) % 3 else "user"} ' if user and sum(map(ord, stage)) % 2 else ''))
              + (f'setpriv --reuid={uid} --regid={uid} --clear-groups ' if uid != 0 and euid is None else '')
              # real and effective uid differ (a set-uid helper): the invoking — real — user's directory is the one to read
@@ -211,8 +213,10 @@ def oracle(ctx):
         # the mode (--user) and the invoking uid are separate dimensions: uid 0 runs a user generator too (user@0.service)
         other = rnd.choice([u for u in (1001, 2002, 7, 1000) if u != uid])
         no_out = rnd.random() < 0.6
-        return uid, run_ns(stage, 0, False), run_ns(stage, uid, True), run_ns(stage, 0, True), (other, run_ns(stage, uid, True, euid=other)), (no_out, run_ns(stage, uid, True, by_name=True, no_out=no_out))
-    for (stage, tree, marks), (uid, r0, ru, ru0, (other, rue), (no_out, run_name)) in zip(cases, e2e.pmap(run, cases, workers=8)):
+        how = rnd.choice(['unset', 'empty', 'relative'])
+        return (uid, run_ns(stage, 0, False), run_ns(stage, uid, True), run_ns(stage, 0, True), (other, run_ns(stage, uid, True, euid=other)),
+                (no_out, run_ns(stage, uid, True, by_name=True, no_out=no_out)), (how, run_ns(stage, uid, True, xdg_runtime=how)))
+    for (stage, tree, marks), (uid, r0, ru, ru0, (other, rue), (no_out, run_name), (how, run_noxdg)) in zip(cases, e2e.pmap(run, cases, workers=8)):
         res.oracle_evals += 1
         fails = []
         want_root = {t for t, (lab, d) in marks.items() if lab in ('distro', 'run') or (lab == 'adm' and not (d == 'users' or d.startswith('users/')))}
@@ -230,6 +234,10 @@ def oracle(ctx):
             fails.append(f'the user generator invoked by uid {uid} with effective uid {other} (exit {rue[0]}) read {sorted(rue[1])}, permitted and expected {sorted(want_user)} {rue[2][-200:]}')
         if run_name[0] not in (0, 1) or run_name[1] != want_user:
             fails.append(f'the generator started as podman-user-generator by uid {uid} (--dry-run, {"no output directory" if no_out else "with output directory"}; exit {run_name[0]}) read {sorted(run_name[1])}, permitted and expected {sorted(want_user)} {run_name[2][-200:]}')
+        # without a usable XDG_RUNTIME_DIR the user has no runtime directory of its own — the system's /run/containers/systemd is not a stand-in
+        want_noxdg = {t for t in want_user if marks[t][0] != 'xdgrun'}
+        if run_noxdg[0] not in (0, 1) or run_noxdg[1] != want_noxdg:
+            fails.append(f'the user generator of uid {uid} with XDG_RUNTIME_DIR {how} (exit {run_noxdg[0]}) read {sorted(run_noxdg[1])}, permitted and expected {sorted(want_noxdg)} {run_noxdg[2][-200:]}')
         for f in fails:
             res.oracle_failures.append(dict(op='namespace-run', input=dict(tree=tree, uid=uid), impl_output=dict(root=sorted(r0[1]), user=sorted(ru[1])), oracle_expectation=f))
         shutil.rmtree(stage, ignore_errors=True)
